@@ -587,6 +587,11 @@ def _set_member_default(inst, key, cls, attr):
         return True
 
     if def_val is not None:
+        # every instance gets a list of its own: the protocols append what they
+        # read to the value they find.
+        if isinstance(def_val, list):
+            def_val = list(def_val)
+
         # should not check for read-only for default values
         setattr(inst, key, def_val)
 
